@@ -304,6 +304,7 @@ func (m *Muxer) Start() error {
 		variant:            m.Variant,
 		segmentMinDuration: m.SegmentMinDuration,
 		partMinDuration:    m.PartMinDuration,
+		mutex:              &m.mutex,
 		parent:             m,
 	}
 	m.segmenter.initialize()
